@@ -47,7 +47,7 @@ fn one_upload(r: &mut Report, rng: &mut Rng, shard: usize, schema: &refcodec::la
     let big = rng.chance(1, if quick { 12 } else { 5 });
     // payload directory: random subset of the recognised paths + unrelated files / sub-directories
     let mut files: BTreeMap<u8, Vec<u8>> = BTreeMap::new();
-    let density = *rng.pick(&[1u64, 3, 8, 20]);
+    let density = *rng.pick(&[1u64, 3, 8, 20, 21]);
     for (_, id) in RECOGNISED.iter() {
         if rng.chance(density, 21) {
             let n = pick_size(rng, block, big);
@@ -78,7 +78,7 @@ fn one_upload(r: &mut Report, rng: &mut Rng, shard: usize, schema: &refcodec::la
 
     // request script
     let max_req = if quick { 48 } else { 200 };
-    let style = rng.below(6);
+    let style = rng.below(7);
     let mut requests: Vec<(u8, u32)> = vec![];
     match style {
         0 => {
@@ -121,6 +121,18 @@ fn one_upload(r: &mut Report, rng: &mut Rng, shard: usize, schema: &refcodec::la
                 let id = *rng.pick(&ids);
                 requests.push((id, rng.below(files[&id].len() as u64 + 1) as u32));
             }
+        }
+        5 => {
+            // round robin: every file in turn (shuffled), several rounds - each file is come back to after all the others
+            let mut order = ids.clone();
+            rng.shuffle(&mut order);
+            for round in 0..3u32 {
+                for id in &order {
+                    let size = files[id].len() as u32;
+                    requests.push((*id, (round.saturating_mul(block)).min(size)));
+                }
+            }
+            requests.truncate(max_req.max(3 * order.len()).min(80));
         }
         _ => {
             // tail of the largest file, block by block backwards
@@ -228,7 +240,7 @@ fn make_final(sd: &refcodec::tables::StreamDef, pools: &Pools, rng: &mut Rng, va
 
 pub fn run(ctx: &Ctx) -> i32 {
     let mut report = ctx.report("C11", "exploration");
-    report.rule = "uploads: a payload directory created by the harness (random subset of the 21 recognised paths, sizes {0, 1, block-1, block, block+1, 2*block, 65535, 65536, 200 KiB, random}, random content, plus unrelated files and sub-directories) x block size {1, 2, 127, 128, 253..257, 1024, 32767, 32768, random} x a request script {sequential full download, any order/repeated/overlapping, offsets at/after end of file and u32::MAX, short, backwards} ending in completion, abort or an invalid request {unknown id, recognised-but-absent id, missing id, missing offset, missing file container, missing TLV container}. Oracle over the scripted terminal's event log: the announcement decodes (reference codec) to exactly the set {(id, true size)}; every data request is answered by exactly the reference encoding of {id, offset, file[offset..min(offset+block,size)]} (empty = absent payload) before the next read; an invalid request yields one error, no data, end. Non-trivial = upload with at least one data request; distinct by hash of (announcement, block, requests, ending).".into();
+    report.rule = "uploads: a payload directory created by the harness (random subset of the 21 recognised paths, sizes {0, 1, block-1, block, block+1, 2*block, 65535, 65536, 200 KiB, random}, random content, plus unrelated files and sub-directories) x block size {1, 2, 127, 128, 253..257, 1024, 32767, 32768, random} x a request script {sequential full download, any order/repeated/overlapping, round robin over all files (up to all 21) for three rounds, offsets at/after end of file and u32::MAX, short, backwards} ending in completion, abort or an invalid request {unknown id, recognised-but-absent id, missing id, missing offset, missing file container, missing TLV container}. Oracle over the scripted terminal's event log: the announcement decodes (reference codec) to exactly the set {(id, true size)}; every data request is answered by exactly the reference encoding of {id, offset, file[offset..min(offset+block,size)]} (empty = absent payload) before the next read; an invalid request yields one error, no data, end. Non-trivial = upload with at least one data request; distinct by hash of (announcement, block, requests, ending).".into();
     report.exhaustive = Some(false);
     report.assumptions = vec!["files and directories are created under /verif/.build/<work>/scratch and removed afterwards".into(), "files > 4 GiB (u32 truncation) are not exercised".into()];
     let schema = refcodec::zvt_schema();
